@@ -48,9 +48,13 @@ def coder(kind: str):
     return c
 
 
-def shared_objects():
-    """Objects that must be shared (not deep-copied) between snapshots."""
-    return list(_CODERS.values())
+def shared_objects(world=None):
+    """Objects that must be shared (not deep-copied) between snapshots: the compiled coders and immutable
+    configuration objects that cannot be deep-copied (DeviceDataProvider holds mappingproxy fields)."""
+    out = list(_CODERS.values())
+    if world is not None:
+        out += list(getattr(world, "immutables", ()))
+    return out
 
 
 def iso_ms(ms: int, micro: int = 0) -> str:
@@ -100,6 +104,7 @@ class FacWorld(World):
         self.vam_tm = None
         self.denm_tm = None
         self.cluster = None
+        self.immutables = []
 
     # -- clock ----------------------------------------------------------------------------
     def set_ms(self, ms: int):
@@ -147,8 +152,9 @@ class FacWorld(World):
         with self:
             if clustering:
                 self.cluster = VBSClusteringManager(own_station_id=kw["station_id"], own_vru_profile=profile)
-            self.vam_tm = VAMTransmissionManagement(self.btp, coder("vam"), DeviceDataProvider(**kw),
-                                                    clustering_manager=self.cluster)
+            ddp = DeviceDataProvider(**kw)
+            self.immutables.append(ddp)
+            self.vam_tm = VAMTransmissionManagement(self.btp, coder("vam"), ddp, clustering_manager=self.cluster)
         return self.vam_tm
 
     def add_denm(self, **vehicle_kw):
